@@ -286,6 +286,9 @@ bool updateUnitMultiplier(const UnitsPtr &units, int direction, double &multipli
             }
         }
         multiplier += localMultiplier * direction;
+    } else if (isStandardUnitName(units->name())) {
+        // A units which is itself a standard unit (e.g. what a variable with units "litre" refers to).
+        multiplier += standardMultiplierList.at(units->name()) * direction;
     }
 
     return true;
